@@ -34,3 +34,21 @@ Theorem C01_cisco_routes_converge_stepwise :
     (length (diff_croutes m) <= k -> forall r, In r tk <-> In r (Routes.listB m)).
 Proof. exact croutes_conv_stepwise. Qed.
 Print Assumptions C01_cisco_routes_converge_stepwise.
+
+(* "equivalent to the target up to generated object names", for the oracle of the tunnel-group / user model
+   (Cisco/Tunnel.v): renaming the group-policies injectively (e.g. NAME -> NAME-DRC-0), together with the references
+   to them, changes neither the semantics nor the verdict of the oracle; the premise (every reference names an
+   existing group-policy) is decidable and holds in every state the strict device accepts a reference in
+   (Cisco/TunnelProofs.v tsub_reference_exists). *)
+From Coq Require Import String.
+From NA Require Import Cisco.Tunnel Cisco.TunnelNames.
+Theorem C01_tunnel_oracle_independent_of_group_policy_names :
+  forall (rho : string -> string), (forall a b, rho a = rho b -> a = b) ->
+  forall d t, gps_knownb d = true ->
+    tsem (rename_gps rho d) = tsem d /\ tequiv (rename_gps rho d) t = tequiv d t.
+Proof.
+  intros rho inj d t K. apply gps_knownb_sound in K. split.
+  - exact (tsem_independent_of_group_policy_names rho inj d K).
+  - exact (tequiv_up_to_group_policy_names rho inj d t K).
+Qed.
+Print Assumptions C01_tunnel_oracle_independent_of_group_policy_names.
